@@ -273,3 +273,73 @@ def local_unitary(rng, dims):
     for d in dims:
         U = np.kron(U, rand_unitary(rng, d))
     return U
+
+
+# ----------------------------------------------------------------------------
+# qubit POVMs (sum_k M_k = 1) and the Henderson-Vedral one-way classical information
+
+def _bloch_proj(n):
+    n = np.asarray(n, dtype=float)
+    return 0.5 * (PAULI[0] + n[0] * PAULI[1] + n[1] * PAULI[2] + n[2] * PAULI[3])
+
+
+def povm_projective(rng):
+    v = rng.standard_normal(3)
+    v = v / np.linalg.norm(v)
+    return [_bloch_proj(v), _bloch_proj(-v)]
+
+
+def povm_trine(rng=None, rot=None):
+    """rank-one, non-orthogonal: M_k = (2/3)|t_k><t_k| with coplanar Bloch vectors 120 degrees apart"""
+    vs = [np.array([math.sin(a), 0.0, math.cos(a)]) for a in (0.0, 2 * math.pi / 3, 4 * math.pi / 3)]
+    if rot is not None:
+        vs = [rot @ v for v in vs]
+    return [(2.0 / 3.0) * _bloch_proj(v) for v in vs]
+
+
+def povm_tetra(rot=None):
+    """rank-one SIC POVM: M_k = (1/2)|s_k><s_k| with tetrahedral Bloch vectors"""
+    c = 1.0 / math.sqrt(3.0)
+    vs = [np.array(v) * c for v in ((1, 1, 1), (1, -1, -1), (-1, 1, -1), (-1, -1, 1))]
+    if rot is not None:
+        vs = [rot @ v for v in vs]
+    return [0.5 * _bloch_proj(v) for v in vs]
+
+
+def povm_unsharp(eta, axis=3):
+    """noisy two-outcome POVM (1 +- eta P)/2, not projective for |eta| < 1"""
+    return [0.5 * (PAULI[0] + eta * PAULI[axis]), 0.5 * (PAULI[0] - eta * PAULI[axis])]
+
+
+def povm_random(rng, k):
+    """generic k-outcome POVM with full-rank complex elements: S^-1/2 A_k^dag A_k S^-1/2"""
+    As = [rng.standard_normal((2, 2)) + 1j * rng.standard_normal((2, 2)) for _ in range(k)]
+    Es = [a.conj().T @ a for a in As]
+    S = sum(Es)
+    w, v = np.linalg.eigh(S)
+    Si = (v / np.sqrt(w)) @ v.conj().T
+    return [Si @ e @ Si for e in Es]
+
+
+def rand_rotation(rng):
+    q, r = np.linalg.qr(rng.standard_normal((3, 3)))
+    q = q * np.sign(np.diag(r))
+    if np.linalg.det(q) < 0:
+        q[:, 0] = -q[:, 0]
+    return q
+
+
+def np_owci(rho, povm):
+    """J = S(rho_A) - sum_k p_k S(rho_A|k), p_k = Tr[(1 x M_k) rho], rho_A|k = Tr_B[(1 x M_k) rho]/p_k
+    for a two-qubit rho, the second qubit being measured"""
+    rho = np_dop(rho)
+    s = np_entropy(np_ptr(rho, [2, 2], [0]))
+    for M in povm:
+        x = np.kron(np.eye(2), M) @ rho
+        pk = float(np.real(np.trace(x)))
+        if pk < 1e-15:
+            continue
+        ra = np.einsum("ibjb->ij", x.reshape(2, 2, 2, 2)) / pk
+        ra = (ra + ra.conj().T) / 2
+        s -= pk * np_entropy(ra)
+    return s
